@@ -30,6 +30,13 @@ def gen_tasks(tier, seed):
                 w[es[0]] = 2
             base = {"name": name, "edges": I.with_flow(es, w), "cyc": cyc, "starts": [], "ends": [], "ignored": [], "scaling": None, "node_mode": False, "lam": 0, "eps": None}
             tasks.append({**base, "wt": "int"})
+            estar = rng.choice(es)
+            tasks.append({**base, "wt": "int", "edges": [(u, v, 1 if (u, v) == estar else 10) for (u, v) in es]})
+            tasks.append({**base, "wt": "float", "edges": [(u, v, 10 if (u, v) == estar else 1) for (u, v) in es]})
+            # a node that is both an additional start and an additional end
+            if inner:
+                vb = rng.choice(inner)
+                tasks.append({**base, "wt": "int", "starts": [vb], "ends": [vb]})
             tasks.append({**base, "wt": "float"})
             tasks.append({**base, "wt": "float", "edges": [(u, v, f * 0.5) for (u, v, f) in base["edges"]]})
             e0 = rng.choice(es)
